@@ -12,7 +12,7 @@ module {{ .ModuleName }}(
 	{{- end }}
 	input ack,
 	output [{{ dec .SerialDataSize }}:0] data,
-	output reg ready,
+	output reg ready
 	);
 	
 reg [{{ bits .Terminals }}:0] output_index;
